@@ -163,6 +163,7 @@ import (
 	"fmt"
 	"strconv"
 	"strings"
+	"unicode"
 )
 
 const eof rune = -1
@@ -324,7 +325,8 @@ func (sys System) possibleVersionString(str string) bool {
 		default:
 			// PyPI doesn't require punctuation, so 1a0 is legal.
 			// The charset is limited, though, and set in pep440.go.
-			if sys == PyPI && i > 0 && strings.ContainsRune(lettersInPyPI, c) {
+			// PEP 440 is case-insensitive (1RC1 is 1rc1), as the parser is.
+			if sys == PyPI && i > 0 && strings.ContainsRune(lettersInPyPI, unicode.ToLower(c)) {
 				continue
 			}
 			return false
